@@ -27,6 +27,13 @@ PROP = {
              "successful decode each observable equals that of a fresh variable decoding the same cell, SourceBoc parses back to the hash "
              "reported at that moment, copies report the same, slices handed out earlier are never changed by later calls and overwriting "
              "them changes no later answer; the model replays the history on its record of what UnmarshalTLB writes. "
+             "Dictionaries: one-leaf and two-leaf (fork) extra-currency / library dictionaries with hml_short / hml_long / hml_same labels, "
+             "forks with one branch, junk and truncated roots; real transactions additionally with bits flipped / cells truncated in "
+             "the TransactionDescr cell, the cells below it, the in_msg/out_msgs cell and the out_msgs dictionary root. Library "
+             "resolver (c16.lib): a library cell as the root decoded by a Decoder with WithLibraryResolver (with and without hasher) that "
+             "answers with a synthetic message / junk / another library cell; oracle: the resolver is asked exactly for the root's "
+             "hash and the reported hash is that of the resolved cell. The receiver's destination after Hash(true) is compared as well "
+             "(anycast of addr_std cleared, also seen through copies in histories). "
              "Each case is decoded twice by the real code "
              "(tlb.Unmarshal and tlb.NewDecoder() with a pre-warmed hasher cache); compared with the extracted model (Gallina SHA-256): "
              "ok/err, kind, Hash(false), Hash(true), init form, body placement/bits/reference count, re-encoded source and destination, "
@@ -46,12 +53,22 @@ PROP = {
                     "reference count and reference hash material; Hash(true)=Hash(false) for internal / external-out messages. Histories: a "
                     "successful decode into a variable in ANY prior state yields one and the same state (hash, captured source cell, fields "
                     "of the pure decode function), hence every later observable is that of a fresh decode; the design that keeps the "
-                    "serialised source in the variable without clearing it on decode is refuted by decode A, SourceBoc, decode B, SourceBoc."),
+                    "serialised source in the variable without clearing it on decode is refuted by decode A, SourceBoc, decode B, SourceBoc. "
+                    "Round 3: the dictionary walk (Hashmap.mapInner over C05's load_label, with the VarUInteger32 / SimpleLib / Ref[Message] "
+                    "value decoders) and TransactionDescr with all phases are transcribed (Model/MsgOracle.v), so tongo_decode_message / "
+                    "tongo_decode_tx are functions of the cell tree alone and all theorems are instantiated for them; SourceBoc is tied to "
+                    "tongo's own serialiser model: whenever serialize(cells, hasher hashes, [k]) returns bytes they parse to one root with the "
+                    "reported hash (C01 serialize_is_layout / boc_roundtrip_model, with the two unfoldings of a cell array shown equal and "
+                    "the hasher shown never to return the model's fuel error); under a collision-free 32-byte hash two ordinary trees with "
+                    "the same level-0 hash are equal, hence equal Hash(true) forces equal bodies as trees; Hash(_) calls never change "
+                    "Hash(false)/Hash(true), the only receiver change is the cleared addr_std anycast; with a library resolver a library "
+                    "root reports the hash of the resolved cell."),
     'assumptions': ["SHA-256 is a parameter H of every theorem; the converse direction assumes H injective (stated in the theorem)",
-                    "dictionary decoding (extra currencies, StateInit.library, out_msgs) and TransactionDescr decoding are an arbitrary acceptance oracle in the theorems; in the correspondence run the first two are tongo's own Hashmap decoder evaluated by the harness on every cell of the case, the last two are only exercised on real transactions",
-                    "no library resolver is configured (Decoder.WithLibraryResolver unused): a library cell in decoder position is an error",
+                    "dictionary and TransactionDescr decoding are transcribed in Model/MsgOracle.v (acceptance only; the label walk is C05's load_label) and run by the extracted model; the theorems hold for every acceptance oracle and are instantiated for the transcription; the link of the dictionary walk to C05's abstract-map theorems is not restated here",
+                    "C16_source_boc_is_serialiser_output assumes C01's hypotheses: array as returned by the parser (dag_wf, node_ok), fewer than 2^24 cells, and collision_free (equal hashes => equal trees among the reachable cells, the SHA-256 idealisation); tree-level injectivity of Hash(true) is for ordinary (non-exotic, level 0) reference trees only - with pruned branches it is false by design",
+                    "no library resolver is configured in tongo_decode_* (a library cell in decoder position is an error); with a resolver only the root position is transcribed (C16_library_root_resolved), nested library cells are resolved by the code the same way but not modelled",
                     "bit strings / cells are the ideal objects of C06; SourceBoc's byte string is tied to the C01 layout by the per-output parse-back check and byte-exact comparison with the serialiser model, not by a theorem about the reordering heuristic",
-                    "as the code stands Hash(true) keeps the anycast of an addr_var destination and returns 32 zero bytes when the canonical cell exceeds the depth limit (both modelled and stated as theorems, not alarmed on); Hash(true) clears the receiver's addr_std anycast (mutation visible only through aliasing, not modelled)",
+                    "as the code stands Hash(true) keeps the anycast of an addr_var destination and returns 32 zero bytes when the canonical cell exceeds the depth limit (both modelled and stated as theorems, not alarmed on); Hash(true) clears the receiver's addr_std anycast: modelled (after_hash), it never changes Hash(false) or Hash(true), so it is not a C16 violation; re-marshalling such a message afterwards gives another cell (outside C16)",
                     "byte slices are values in the model: that SourceBoc returns independent copies (no aliasing between calls, copies of the variable and the caller's buffer) is established by the harness oracle on the implementation only"],
 }
 
@@ -65,10 +82,10 @@ META = {
              "bit-exactly, and under collision-freeness a different destination encoding, body bit string or reference count gives a "
              "different normalised hash. The extracted model (Gallina SHA-256) reproduces the implementation's hashes, decode "
              "outcomes and SourceBoc bytes on synthetic equivalence classes, malformed inputs and on the messages/transactions of all "
-             "testdata blocks, and on call histories that reuse one variable as decoding target (~460 cases quick, ~16k thorough)."),
+             "testdata blocks, and on call histories that reuse one variable as decoding target (~500 cases quick, ~17k thorough)."),
     'design_ref': 'DESIGN.md §6 C16',
     'note': ("No defect found. Observations stated as theorems: addr_var anycast is not dropped by Hash(true); Hash(true) returns the "
              "zero hash when the canonical cell cannot be hashed. Trusted: Coq kernel, extraction, drivers, Go harness, the C02 hash "
-             "spec and C01 layout spec, tongo's Hashmap decoder as dictionary oracle in the correspondence run."),
+             "spec, the C01 layout spec and serialiser theorems, C05's load_label."),
     'technique': 'Coq: decoder model over cell trees + C02/C01 theorems + canonical-cell equality + hash-preimage injectivity; extracted-model correspondence incl. real blocks',
 }
